@@ -26,7 +26,11 @@ use std::process::{Command, Stdio};
 use std::time::Instant;
 
 pub const DEFAULT_SEED: u64 = 20260923;
-pub const VERIF_DIR: &str = "/verif";
+/// root of the verification tree (evidence/, replays/, known_findings.json): the directory of the
+/// `check` script that started us, so that a snapshot run writes into its own snapshot
+fn verif_dir() -> String {
+    std::env::var("VERIF_HOME").unwrap_or_else(|_| "/verif".to_string())
+}
 
 fn arg_val(args: &[String], name: &str) -> Option<String> {
     args.iter()
@@ -396,8 +400,8 @@ fn selftest(args: &[String]) -> i32 {
     let out = json!({"selftest": "determinism", "seed": seed, "pool_a": {"workers": 4, "RAYON_NUM_THREADS": 2}, "pool_b": {"workers": 16, "RAYON_NUM_THREADS": 5},
         "note": "each seed is executed twice in different fresh processes with different batch boundaries; per-run digests cover the schedule trace and the event log / history / archive bytes",
         "results": report, "diffs": bad});
-    let _ = std::fs::create_dir_all(format!("{VERIF_DIR}/selftest"));
-    let _ = std::fs::write(format!("{VERIF_DIR}/selftest/determinism.json"), serde_json::to_string_pretty(&out).unwrap() + "\n");
+    let _ = std::fs::create_dir_all(format!("{}/selftest", verif_dir()));
+    let _ = std::fs::write(format!("{}/selftest/determinism.json", verif_dir()), serde_json::to_string_pretty(&out).unwrap() + "\n");
     if bad == 0 { 0 } else { 1 }
 }
 
@@ -468,7 +472,7 @@ fn check(args: &[String]) -> i32 {
     total.violations.extend(divergences);
 
     // triage violations: known findings vs new
-    let known = report::load_known(&format!("{VERIF_DIR}/known_findings.json"));
+    let known = report::load_known(&format!("{}/known_findings.json", verif_dir()));
     let mut known_hit: std::collections::BTreeSet<String> = Default::default();
     let mut fresh: Vec<Violation> = Vec::new();
     for v in std::mem::take(&mut total.violations) {
@@ -486,12 +490,12 @@ fn check(args: &[String]) -> i32 {
     if !fresh.is_empty() {
         // report at most 3 distinct classes, each minimised and replay-verified
         let mut seen = std::collections::BTreeSet::new();
-        let _ = std::fs::create_dir_all(format!("{VERIF_DIR}/replays"));
+        let _ = std::fs::create_dir_all(format!("{}/replays", verif_dir()));
         for v in &fresh {
             if !seen.insert(v.class.clone()) || seen.len() > 3 {
                 continue;
             }
-            let path = format!("{VERIF_DIR}/replays/{}-{}-{}-{:x}.json", v.property, seed, v.index, v.event_log_digest);
+            let path = format!("{}/replays/{}-{}-{}-{:x}.json", verif_dir(), v.property, seed, v.index, v.event_log_digest);
             let vprofile = if v.detail.starts_with("[checked build]") { "checked" } else { "fast" };
             let vexe = bin_for(vprofile);
             let body = serde_json::to_string_pretty(&replay_file_json(v, seed, vprofile)).unwrap();
@@ -548,7 +552,7 @@ fn check(args: &[String]) -> i32 {
             e
         },
     };
-    let path = format!("{VERIF_DIR}/evidence/{id}.json");
+    let path = format!("{}/evidence/{id}.json", verif_dir());
     if let Err(e) = report::write_evidence(&path, &meta, &total) {
         eprintln!("cannot write evidence: {e}");
         return 2;
